@@ -7,7 +7,7 @@ ID=$1; n=$2; tier=${3:-quick}
 root=${BENIGNROOT:-/tmp/benign}
 src=$root/$ID/out/$n
 [ -f "$src/patch.diff" ] || { echo "BENIGN $ID-$n: no patch"; exit 2; }
-dst=benign/$ID-$n
+dst=benign/$ID-${BENIGNTAG:-}$n
 mkdir -p "$dst"; cp "$src/patch.diff" "$dst/"; [ -f "$src/meta.json" ] && cp "$src/meta.json" "$dst/"
 ids=$(python3 - "$src/patch.diff" "$ID" <<'PY'
 import json,sys,re,collections
@@ -37,5 +37,5 @@ for c in $ids; do
   res="$res $c=$rc"
 done
 echo "$res" > "$dst/result-$tier.txt"
-if [ $bad = 0 ]; then echo "BENIGN $ID-$n [$tier]: SILENT ($res )"; else echo "BENIGN $ID-$n [$tier]: ALARM ($res )"; fi
+if [ $bad = 0 ]; then echo "BENIGN $ID-${BENIGNTAG:-}$n [$tier]: SILENT ($res )"; else echo "BENIGN $ID-${BENIGNTAG:-}$n [$tier]: ALARM ($res )"; fi
 exit $bad
